@@ -143,7 +143,7 @@ class Contract:
     def __init__(self, qualname, params, requires=None, ensures=None, raises=None, loops=None,
                  local_types=None, modifies=None, result_type=None, assumed_asserts=None,
                  pure=None, trusted=False, defaults=None, properties=(), note="", may_raise=None,
-                 captured=None, lemmas=None, ann_types=None, axioms=None, custom_apply=None, append_schema=None):
+                 captured=None, lemmas=None, ann_types=None, axioms=None, custom_apply=None, append_schema=None, trusted_fragments=None):
         self.qualname = qualname
         self.short = qualname.split(".", 1)[1] if qualname.startswith("biobalm.") else qualname
         self.params = params                  # list of (name, Ty | HeapParam)
@@ -167,6 +167,7 @@ class Contract:
         self.lemmas = lemmas or []            # (lemma name, lambda c -> instance) assumed at every exit
         self.ann_types = ann_types or {}      # annotation text -> Ty overriding the global table
         self.axioms = axioms or []
+        self.trusted_fragments = trusted_fragments or []
         self.custom_apply = custom_apply      # call-site handler replacing the generic requires/havoc/ensures flow
         self.append_schema = append_schema    # callbacks: {'list': captured list name, 'cont': lambda c, newlen -> Bool}
 
